@@ -21,7 +21,7 @@ for c in $(git rev-list --reverse --no-merges main..verif-$id); do
   map="$map $o:$n"
 done
 cd /verif || exit 2
-git checkout -- evidence replay 2>/dev/null
+git checkout -- evidence 2>/dev/null
 [ -z "$(git status --short | grep -v '^??')" ] || { echo "/verif is not clean"; git status --short | head; exit 2; }
 git merge --no-edit wt-$id >/tmp/merge-$id.log 2>&1 || grep -q CONFLICT /tmp/merge-$id.log || { echo "MERGE FAILED"; tail -5 /tmp/merge-$id.log; exit 1; }
 for f in $(git diff --name-only --diff-filter=U); do
